@@ -287,6 +287,7 @@ def check(args):
         elif out is None:
             report.harness_errors.append(f"stalled case could not be re-run: {status} {err}")
     # ---- triage
+    unconfirmed_cpu = []
     # recorded findings first (they cost nothing), then up to 12 unlisted signatures are shrunk and confirmed
     ordered = sorted(first_by_sig.items(), key=lambda kv: (report.match_known(kv[0]) is None, kv[0]))
     n_listed = sum(1 for sig, _ in ordered if report.match_known(sig) is not None)
@@ -295,11 +296,30 @@ def check(args):
             # a recorded finding: nothing to shrink or to confirm again on every run
             report.add(sig, "-", summarize(v))
             continue
-        if sig[-1] == "hang" or (sig[0] == "time" and v["out"].get("cpu", 0) > 5):
+        if sig[-1] == "hang":
             # established by the run itself (a stalled case was already re-run alone); shrinking would re-run it many times
             path = core.write_replay(PROP, f"hang-{core.digest(v['case'])}", {"property": PROP, "case": v["case"], "sig": list(sig), "violation": v["out"]})
             report.add(sig, path, summarize(v))
             continue
+        if sig[0] == "time" and sig[-1] == "slow":
+            # CPU seconds are the one clock the simulation does not own (machine load, a paused VM): the verdict
+            # counts only when the case is slow again alone in a pristine process, twice
+            a, st_a, _ = run_solo(v["case"], timeout=10 * c15_idle())
+            b, st_b, _ = run_solo(v["case"], timeout=10 * c15_idle()) if st_a == "timeout" or has_sig(a, sig) else (None, "skipped", None)
+            if st_a == "timeout" and st_b == "timeout":
+                hsig = tuple(sig[:-1]) + ("hang",)
+                path = core.write_replay(PROP, f"hang-{core.digest(v['case'])}", {"property": PROP, "case": v["case"], "sig": list(hsig), "violation": v["out"]})
+                report.add(hsig, path, summarize(v) + " [no result alone either]")
+                continue
+            if not ((st_a == "timeout" or has_sig(a, sig)) and (st_b == "timeout" or has_sig(b, sig))):
+                unconfirmed_cpu.append({"case": v["case"], "cpu_in_batch": v["out"].get("cpu"), "cpu_alone": (a or {}).get("max_cpu")})
+                print(f"[C15] note: {v['out'].get('cpu', 0):.2f}s of CPU in a batch was not repeated alone ({(a or {}).get('max_cpu')}s): not a verdict", file=sys.stderr, flush=True)
+                continue
+            if v["out"].get("cpu", 0) > 5:
+                # confirmed, and too slow to shrink
+                path = core.write_replay(PROP, f"slow-{core.digest(v['case'])}", {"property": PROP, "case": v["case"], "sig": list(sig), "violation": v["out"]})
+                report.add(sig, path, summarize(v))
+                continue
         small, trials = minimize(v["case"], sig)
         a, _, _ = run_solo(small)
         b, _, _ = run_solo(small)
@@ -350,6 +370,7 @@ def check(args):
                 "documents": {"xml": len(c15.Store.xml), "json": len(c15.Store.json)},
                 "dropped_no_faultfree_instance": sorted(s["dropped"]),
                 "stalled_cases_rechecked": len(suspects),
+                "cpu_outliers_not_repeated_alone": unconfirmed_cpu[:8],
                 "violation_signatures": {"/".join(map(str, k)): v for k, v in agg["sigs"].items()},
                 "components": {"real": ["XmlParser + LxmlEventHandler", "XmlParser + XmlEventHandler (native)", "JsonParser", "DictDecoder", "all parser nodes", "converter"], "stub": [], "harness": ["SimReader (io read contract, seeded chunk schedule)", "fault applicators (bytes, lxml tree, JSON value)", "expat well-formedness judge", "sys.monitoring step meter"]},
                 "setup_s": round(t_setup, 2),
